@@ -47,6 +47,12 @@ pub struct Race {
     /// evaluate only the snapshot oracle of C12 (every snapshot uploaded during the race equals
     /// the chain replay at its version) instead of the convergence oracle of C02
     pub snapshots_only: bool,
+    /// tasks that must not exist / must exist once everything has quiesced (C20: an expired task
+    /// stays gone, an unrelated one stays)
+    pub must_be_absent: Vec<uuid::Uuid>,
+    pub must_be_present: Vec<uuid::Uuid>,
+    /// the state every sequential sync order converges to (C03: overlapping syncs must agree)
+    pub expect_tasks: Option<crate::model::ops::Tasks>,
 }
 
 pub struct RaceCtx {
@@ -141,6 +147,21 @@ impl Scenario for Race {
             replica_invariant(&w.chain, o, i)?;
         }
         let (tasks, _) = quiesce(&w)?;
+        if let Some(u) = self.must_be_absent.iter().find(|u| tasks.contains_key(u)) {
+            return Err(format!("resurrected: task {u} is back after overlapping syncs: {}", crate::world::replicas::tasks_str(&tasks)));
+        }
+        if let Some(u) = self.must_be_present.iter().find(|u| !tasks.contains_key(u)) {
+            return Err(format!("collateral: task {u} vanished after overlapping syncs"));
+        }
+        if let Some(want) = &self.expect_tasks {
+            if *want != tasks {
+                return Err(format!(
+                    "order-dependence: overlapping syncs converge to {} but syncing one after the other converges to {}",
+                    crate::world::replicas::tasks_str(&tasks),
+                    crate::world::replicas::tasks_str(want)
+                ));
+            }
+        }
         Ok(Outcome {
             outcome_hash: crate::util::h64(&(format!("{tasks:?}"), w.chain.versions.len(), rejections)),
             nontrivial: rejections > 0,
@@ -148,7 +169,7 @@ impl Scenario for Race {
     }
 }
 
-fn start_states(r: usize, depth: usize, updates: Vec<(String, Option<String>, i64)>, big: u8, populated: bool) -> Vec<(World, Vec<Act>)> {
+pub fn start_states(r: usize, depth: usize, updates: Vec<(String, Option<String>, i64)>, big: u8, populated: bool) -> Vec<(World, Vec<Act>)> {
     start_states_active(r, r, depth, updates, big, populated)
 }
 
@@ -209,6 +230,111 @@ pub fn trace_to_json(tr: &[(Choice, String)]) -> serde_json::Value {
     json!(tr.iter().map(|(c, l)| json!({"choice": c, "at": l})).collect::<Vec<_>>())
 }
 
+/// Explore every race set of every start state of one space (used by C02 and, for a small space
+/// of overlapping syncs, by C01).
+#[allow(clippy::too_many_arguments)]
+pub fn race_space(prop: &str, rep: &Report, opts: &Opts, name: &str, starts: &[(World, Vec<Act>)], urg: Urg, d0: usize, bound3: usize, deadline: std::time::Instant) {
+    let jobs: Vec<(usize, Vec<usize>)> = starts
+        .iter()
+        .enumerate()
+        .flat_map(|(i, (w, _))| {
+            subsets(w.reps.len())
+                .into_iter()
+                .filter(|s| {
+                    // every racer has something to do and at least one pushes
+                    s.iter().all(|&r| !w.obs[r].unsynced.is_empty() || Some(w.obs[r].base) != w.chain.latest() && !w.chain.versions.is_empty())
+                        && s.iter().any(|&r| !w.obs[r].unsynced.is_empty())
+                })
+                .map(move |s| (i, s))
+        })
+        .collect();
+    let results: Vec<_> = jobs
+        .par_iter()
+        .enumerate()
+        .map(|(jdx, (i, racers))| {
+            let sc = Race {
+                world: starts[*i].0.clone(),
+                racers: racers.clone(),
+                urg,
+                snapshots_only: false,
+                must_be_absent: vec![],
+                must_be_present: vec![],
+                expect_tasks: None,
+            };
+            let cfg = ExploreCfg {
+                bound: if racers.len() >= 3 { bound3 } else { usize::MAX },
+                max_schedules: 2_000_000,
+                deadline: Some(deadline),
+                seen: Some(Default::default()),
+            };
+            let (st, fails) = explore(&sc, &cfg);
+            // pruning self-check on every 32nd (thorough: 8th) race: same outcomes as unpruned
+            let (every, cap) = if opts.tier == Tier::Quick { (32, 3_000) } else { (8, 100_000) };
+            if jdx % every == 0 && fails.is_empty() && !st.capped {
+                match crate::explore::sched::pruning_selfcheck(&sc, cfg.bound, cap) {
+                    Some(Ok(_)) => rep.add("pruning_selfcheck_races_equal_to_unpruned", 1),
+                    Some(Err(e)) => {
+                        eprintln!("MACHINERY ERROR: {prop} state-key pruning is unsound in space {name}, racers {racers:?}: {e}");
+                        std::process::exit(2);
+                    }
+                    None => rep.add("pruning_selfcheck_races_skipped_unpruned_too_large", 1),
+                }
+            }
+            (*i, racers.clone(), st, fails)
+        })
+        .collect();
+    let mut schedules = 0u64;
+    let mut steps = 0u64;
+    let mut nontrivial = 0u64;
+    let mut outcomes = 0u64;
+    let mut capped = false;
+    let mut sampled = false;
+    for (i, racers, st, fails) in results {
+        schedules += st.schedules;
+        steps += st.steps;
+        nontrivial += st.nontrivial_outcomes.len() as u64;
+        outcomes += st.outcomes.len() as u64;
+        capped |= st.capped;
+        if !sampled && !st.sample_traces.is_empty() {
+            sampled = true;
+            rep.sample(json!({"space": name, "prior_history": starts[i].1.iter().map(act_str).collect::<Vec<_>>(), "racing_replicas": racers,
+                              "schedule_with_rejection": st.sample_traces[0].iter().map(|(c, l)| format!("R{}:{}", racers[c.task], l)).collect::<Vec<_>>()}));
+        }
+        for f in fails.into_iter().take(1) {
+            let class = f.what.split(':').next().unwrap_or("").to_string();
+            // replay twice before reporting
+            let sc = Race { world: starts[i].0.clone(), racers: racers.clone(), urg, snapshots_only: false, must_be_absent: vec![], must_be_present: vec![], expect_tasks: None };
+            let choices: Vec<Choice> = f.trace.iter().map(|(c, _)| *c).collect();
+            let r1 = crate::explore::sched::replay(&sc, &choices).map(|(_, r)| r.err());
+            let r2 = crate::explore::sched::replay(&sc, &choices).map(|(_, r)| r.err());
+            if r1 != r2 || !matches!(r1, Ok(Some(_))) {
+                eprintln!("MACHINERY ERROR: {prop} violation does not replay deterministically: {r1:?} vs {r2:?}");
+                std::process::exit(2);
+            }
+            rep.violation(Violation::new(
+                format!("{class}:{name}"),
+                f.what.clone(),
+                json!({"kind": "c02-race", "property": prop, "space": name, "urgency": urg, "replicas": starts[i].0.reps.len(),
+                       "prior_history": super::c01::trace_json(&starts[i].1), "racers": racers,
+                       "schedule": trace_to_json(&f.trace), "observed": f.what}),
+            ));
+        }
+    }
+    rep.add("states", starts.len() as u64);
+    rep.add("start_state_race_sets", jobs.len() as u64);
+    rep.add("transitions", steps);
+    rep.add("schedules", schedules);
+    rep.add("traces_validated_against_impl", schedules);
+    rep.add("distinct_nontrivial", nontrivial);
+    rep.add("distinct_outcomes", outcomes);
+    if capped {
+        rep.set("exhaustive", false);
+    }
+    rep.set(&format!("space_{name}"), json!({"start_states": starts.len(), "race_sets": jobs.len(), "schedules": schedules, "requests_scheduled": steps,
+           "distinct_outcomes_with_rejection": nontrivial, "capped": capped, "prior_depth": d0, "triple_preemption_bound": bound3}));
+    println!("[{prop}] {name}: {} start states, {} race sets, {schedules} schedules, {steps} scheduled requests, {nontrivial} distinct outcomes with a rejected version, capped={capped} ({:.1}s)", starts.len(), jobs.len(), rep.elapsed());
+}
+
 pub fn run(opts: &Opts) -> i32 {
     let rep = Report::new("C02", "model_checking", opts);
     rep.set("exhaustive", true);
@@ -235,102 +361,7 @@ pub fn run(opts: &Opts) -> i32 {
     }
     let deadline = std::time::Instant::now() + std::time::Duration::from_secs_f64(opts.budget_s);
     for (name, starts, urg) in spaces {
-        let jobs: Vec<(usize, Vec<usize>)> = starts
-            .iter()
-            .enumerate()
-            .flat_map(|(i, (w, _))| {
-                subsets(w.reps.len())
-                    .into_iter()
-                    .filter(|s| {
-                        // every racer has something to do and at least one pushes
-                        s.iter().all(|&r| !w.obs[r].unsynced.is_empty() || Some(w.obs[r].base) != w.chain.latest() && !w.chain.versions.is_empty())
-                            && s.iter().any(|&r| !w.obs[r].unsynced.is_empty())
-                    })
-                    .map(move |s| (i, s))
-            })
-            .collect();
-        let results: Vec<_> = jobs
-            .par_iter()
-            .enumerate()
-            .map(|(jdx, (i, racers))| {
-                let sc = Race {
-                    world: starts[*i].0.clone(),
-                    racers: racers.clone(),
-                    urg,
-                    snapshots_only: false,
-                };
-                let cfg = ExploreCfg {
-                    bound: if racers.len() >= 3 { bound3 } else { usize::MAX },
-                    max_schedules: 2_000_000,
-                    deadline: Some(deadline),
-                    seen: Some(Default::default()),
-                };
-                let (st, fails) = explore(&sc, &cfg);
-                // pruning self-check on every 32nd (thorough: 8th) race: same outcomes as unpruned
-                let (every, cap) = if opts.tier == Tier::Quick { (32, 3_000) } else { (8, 100_000) };
-                if jdx % every == 0 && fails.is_empty() && !st.capped {
-                    match crate::explore::sched::pruning_selfcheck(&sc, cfg.bound, cap) {
-                        Some(Ok(_)) => rep.add("pruning_selfcheck_races_equal_to_unpruned", 1),
-                        Some(Err(e)) => {
-                            eprintln!("MACHINERY ERROR: C02 state-key pruning is unsound in space {name}, racers {racers:?}: {e}");
-                            std::process::exit(2);
-                        }
-                        None => rep.add("pruning_selfcheck_races_skipped_unpruned_too_large", 1),
-                    }
-                }
-                (*i, racers.clone(), st, fails)
-            })
-            .collect();
-        let mut schedules = 0u64;
-        let mut steps = 0u64;
-        let mut nontrivial = 0u64;
-        let mut outcomes = 0u64;
-        let mut capped = false;
-        let mut sampled = false;
-        for (i, racers, st, fails) in results {
-            schedules += st.schedules;
-            steps += st.steps;
-            nontrivial += st.nontrivial_outcomes.len() as u64;
-            outcomes += st.outcomes.len() as u64;
-            capped |= st.capped;
-            if !sampled && !st.sample_traces.is_empty() {
-                sampled = true;
-                rep.sample(json!({"space": name, "prior_history": starts[i].1.iter().map(act_str).collect::<Vec<_>>(), "racing_replicas": racers,
-                                  "schedule_with_rejection": st.sample_traces[0].iter().map(|(c, l)| format!("R{}:{}", racers[c.task], l)).collect::<Vec<_>>()}));
-            }
-            for f in fails.into_iter().take(1) {
-                let class = f.what.split(':').next().unwrap_or("").to_string();
-                // replay twice before reporting
-                let sc = Race { world: starts[i].0.clone(), racers: racers.clone(), urg, snapshots_only: false };
-                let choices: Vec<Choice> = f.trace.iter().map(|(c, _)| *c).collect();
-                let r1 = crate::explore::sched::replay(&sc, &choices).map(|(_, r)| r.err());
-                let r2 = crate::explore::sched::replay(&sc, &choices).map(|(_, r)| r.err());
-                if r1 != r2 || !matches!(r1, Ok(Some(_))) {
-                    eprintln!("MACHINERY ERROR: C02 violation does not replay deterministically: {r1:?} vs {r2:?}");
-                    std::process::exit(2);
-                }
-                rep.violation(Violation::new(
-                    format!("{class}:{name}"),
-                    f.what.clone(),
-                    json!({"kind": "c02-race", "space": name, "urgency": urg, "replicas": starts[i].0.reps.len(),
-                           "prior_history": super::c01::trace_json(&starts[i].1), "racers": racers,
-                           "schedule": trace_to_json(&f.trace), "observed": f.what}),
-                ));
-            }
-        }
-        rep.add("states", starts.len() as u64);
-        rep.add("start_state_race_sets", jobs.len() as u64);
-        rep.add("transitions", steps);
-        rep.add("schedules", schedules);
-        rep.add("traces_validated_against_impl", schedules);
-        rep.add("distinct_nontrivial", nontrivial);
-        rep.add("distinct_outcomes", outcomes);
-        if capped {
-            rep.set("exhaustive", false);
-        }
-        rep.set(&format!("space_{name}"), json!({"start_states": starts.len(), "race_sets": jobs.len(), "schedules": schedules, "requests_scheduled": steps,
-               "distinct_outcomes_with_rejection": nontrivial, "capped": capped, "prior_depth": d0, "triple_preemption_bound": bound3}));
-        println!("[C02] {name}: {} start states, {} race sets, {schedules} schedules, {steps} scheduled requests, {nontrivial} distinct outcomes with a rejected version, capped={capped} ({:.1}s)", starts.len(), jobs.len(), rep.elapsed());
+        race_space("C02", &rep, opts, name, &starts, urg, d0, bound3, deadline);
     }
     rep.finish()
 }
@@ -352,7 +383,7 @@ pub fn replay(case: &serde_json::Value) -> Result<(), String> {
     if case["space"].as_str().unwrap_or("").contains("fresh") || case["space"].as_str().unwrap_or("").contains("snapshots") {
         // prior history of these spaces only uses the first two replicas; nothing else differs
     }
-    let sc = Race { world: w, racers: racers.clone(), urg, snapshots_only: case["snapshots_only"].as_bool().unwrap_or(false) };
+    let sc = Race { world: w, racers: racers.clone(), urg, snapshots_only: case["snapshots_only"].as_bool().unwrap_or(false), must_be_absent: vec![], must_be_present: vec![], expect_tasks: None };
     let (trace, r) = crate::explore::sched::replay(&sc, &choices)?;
     for (c, l) in &trace {
         println!("  R{} {}", racers[c.task], l);
